@@ -12,9 +12,17 @@ def main():
     weird = make_cases(beh[::7], "bw", sizes, run, vmap="weird")
     for c in weird:
         c["opts"]["zooms"] = []
+    # boundary option values: items_per_slot = 65535 (the section header's u16 item count) with more
+    # than 65536 values on one chromosome, and a large block size
+    n = 70000
+    longc = []
+    for k, (ips, bs) in enumerate([(65535, 256), (1024, 100000)] if run.thorough else [(65535, 256)]):
+        longc.append({"kind": "bw", "chroms": [2 * n + 5], "items": [[1, 2 * i, 2 * i + 1, 1 + i % 3] for i in range(n)], "vmap": "int", "allq": 0, "zq": 0,
+                      "mz": [], "scale": 1, "asq": "bed3", "long": 1,
+                      "opts": {"ips": ips, "bs": bs, "zooms": [], "zmode": "manual", "compress": 1 - k, "inmem": 1, "rt": "multi", "threads": 2, "pass": 1 + k, "chan": 100}})
     nt = lambda o: len(o["items"]) >= 2
-    desc = lambda o: {k: o["obs"].get(k) for k in ("result", "err", "chroms", "read")}
-    obs = judge(run, "C01", "Obs_BigWig", cases + weird, nt, desc)
+    desc = lambda o: {k: (o["obs"].get(k) if not (o.get("long") and k == "read") else len(o["obs"].get(k, []))) for k in ("result", "err", "chroms", "read")}
+    obs = judge(run, "C01", "Obs_BigWig", cases + weird + longc, nt, desc)
     run.cov["rule"] = ("every sorted non-overlapping layout within the TLC bounds x (ips, zoom list) from TLC, free options "
                        "(compress, inmemory, runtime/threads, passes, channel, block size) paired; non-trivial = at least 2 values; "
                        "distinct by (items, ips, zooms)")
